@@ -486,5 +486,6 @@ pub fn prop() -> Prop {
         direct: Some(direct),
         selftest: None,
         fuzz: Some(FuzzSpec { target: "nopanic", runs: 100000, max_len: 300, tag: "C08", seed_corpus: Some("nopanic") }),
+        insertion_order_stage: false,
     }
 }
